@@ -1,0 +1,43 @@
+//go:build verif
+
+// Contracts for package index, read by /verif/govc (comment-only).
+package index
+
+// Abstract state of the sharded index (ghost):
+//   model  key id -> position (nil = absent); a key id is keyid(bytes), an injective function of the bytes
+//   count  number of keys
+//   live   sum of Size over the positions stored in model
+//@ ghost field index.ShardedIndex.model intmap
+//@ ghost field index.ShardedIndex.count int
+//@ ghost field index.ShardedIndex.live int
+
+//@ func (*index.ShardedIndex).Put
+//@   trusted
+//@   requires [pos]   pos != nil
+//@   modifies s.model, s.count, s.live
+//@   ensures [model]  s.model == store(old(s.model), keyid(key), pos)
+//@   ensures [old]    result == old(s.model)[keyid(key)]
+//@   ensures [count]  s.count == old(s.count) + (result == nil ? 1 : 0)
+//@   ensures [live]   s.live == old(s.live) + pos.Size - (result == nil ? 0 : result.Size) && s.live >= 0
+
+//@ func (*index.ShardedIndex).Get
+//@   trusted
+//@   pure
+//@   ensures [lookup] result == s.model[keyid(key)]
+
+//@ func (*index.ShardedIndex).Delete
+//@   trusted
+//@   modifies s.model, s.count, s.live
+//@   ensures [model]  s.model == store(old(s.model), keyid(key), 0)
+//@   ensures [old]    result == old(s.model)[keyid(key)]
+//@   ensures [count]  s.count == old(s.count) - (result == nil ? 0 : 1)
+//@   ensures [live]   s.live == old(s.live) - (result == nil ? 0 : result.Size) && s.live >= 0
+
+//@ func (*index.ShardedIndex).Size
+//@   trusted
+//@   pure
+//@   ensures [count] result == s.count && result >= 0
+
+//@ func index.NewShardedIndex
+//@   trusted
+//@   ensures [empty] result != nil && fresh(result) && result.count == 0 && result.live == 0 && (forall k :: {result.model[k]} result.model[k] == 0)
